@@ -20,7 +20,7 @@ type EnumResult struct {
 	Obs        string              `json:"o"`
 	Nontrivial bool                `json:"nt"`
 	Err        string              `json:"e,omitempty"`
-	Sub        int                 `json:"sub,omitempty"` // sub-cases evaluated inside this case (default 1)
+	Sub        int                 `json:"sub,omitempty"`   // sub-cases evaluated inside this case (default 1)
 	SubNT      int                 `json:"subnt,omitempty"` // distinct non-trivial sub-cases (when Sub > 1)
 }
 
